@@ -114,3 +114,27 @@ Check C05_end_to_end_witness : forall u : bool, exists (s' : state) (rf : bool) 
 Print Assumptions C05_end_to_end_witness.
 
 
+
+(** ---- the frame that creates the row; surface squitters ---- *)
+From SQ Require Import Base Table Update EndToEnd EndToEnd2.
+
+
+(** a DF17 airborne-position squitter that CREATES the row delivers its altitude (12-bit code, Q = 1 or all zero), whatever the options *)
+Theorem C05_new_row_df17 : forall (o : opts) (now : Z) (s : state) (line : list N) (s' : state) (rf : bool) (a : N) (m : list N), step_line o now s line = Ok (s', rf, Applied 17 a) -> lookup (tbl s) a = None -> (0 < delete_after o)%Z -> get_message line = Ok (Some m) -> 9 <= field m 33 37 <= 18 -> N.testbit (field m 41 52) 4 = true \/ field m 41 52 = 0 -> exists r' : row, lookup (tbl s') a = Some r' /\ r_altitude r' = AltSpec.alt12_spec (field m 41 52).
+Proof. exact altitude_df17_new_row. Qed.
+Check C05_new_row_df17 : forall (o : opts) (now : Z) (s : state) (line : list N) (s' : state) (rf : bool) (a : N) (m : list N), step_line o now s line = Ok (s', rf, Applied 17 a) -> lookup (tbl s) a = None -> (0 < delete_after o)%Z -> get_message line = Ok (Some m) -> 9 <= field m 33 37 <= 18 -> N.testbit (field m 41 52) 4 = true \/ field m 41 52 = 0 -> exists r' : row, lookup (tbl s') a = Some r' /\ r_altitude r' = AltSpec.alt12_spec (field m 41 52).
+Print Assumptions C05_new_row_df17.
+
+(** a DF4 reply that creates the row delivers its altitude *)
+Theorem C05_new_row_df4 : forall (o : opts) (now : Z) (s : state) (line : list N) (s' : state) (rf : bool) (a : N) (m : list N), step_line o now s line = Ok (s', rf, Applied 4 a) -> lookup (tbl s) a = None -> (0 < delete_after o)%Z -> get_message line = Ok (Some m) -> AltSpec.m_bit (field m 20 32) = false -> AltProof.known_ac13 (field m 20 32) = false -> exists r' : row, lookup (tbl s') a = Some r' /\ r_altitude r' = AltSpec.alt13_spec (field m 20 32).
+Proof. exact altitude_df4_new_row. Qed.
+Check C05_new_row_df4 : forall (o : opts) (now : Z) (s : state) (line : list N) (s' : state) (rf : bool) (a : N) (m : list N), step_line o now s line = Ok (s', rf, Applied 4 a) -> lookup (tbl s) a = None -> (0 < delete_after o)%Z -> get_message line = Ok (Some m) -> AltSpec.m_bit (field m 20 32) = false -> AltProof.known_ac13 (field m 20 32) = false -> exists r' : row, lookup (tbl s') a = Some r' /\ r_altitude r' = AltSpec.alt13_spec (field m 20 32).
+Print Assumptions C05_new_row_df4.
+
+(** a surface-position squitter (TC 5-8) on an existing row blanks the altitude, on both update paths *)
+Theorem C05_surface_blanks : forall (o : opts) (now : Z) (s : state) (line : list N) (s' : state) (rf : bool) (a : N) (r : row) (m : list N), step_line o now s line = Ok (s', rf, Applied 17 a) -> lookup (tbl s) a = Some r -> (0 < delete_after o)%Z -> get_message line = Ok (Some m) -> 5 <= field m 33 37 <= 8 -> exists r' : row, lookup (tbl s') a = Some r' /\ r_altitude r' = None.
+Proof. exact surface_blanks_altitude. Qed.
+Check C05_surface_blanks : forall (o : opts) (now : Z) (s : state) (line : list N) (s' : state) (rf : bool) (a : N) (r : row) (m : list N), step_line o now s line = Ok (s', rf, Applied 17 a) -> lookup (tbl s) a = Some r -> (0 < delete_after o)%Z -> get_message line = Ok (Some m) -> 5 <= field m 33 37 <= 8 -> exists r' : row, lookup (tbl s') a = Some r' /\ r_altitude r' = None.
+Print Assumptions C05_surface_blanks.
+
+
